@@ -175,6 +175,8 @@ def wire_ops(ops, table):
     out = []
     for o in ops:
         t = o[0]
+        if t == "Wr":
+            continue                             # an intermediate write_to_file: no statement of the model
         if t == "F":
             out.append("F%s%d" % (CL[o[1]], 1 if o[2] else 0))
         elif t == "N":
@@ -336,6 +338,8 @@ def apply_op(pr, env, o):
             pr.cells.remove(pr.cells[o[1]])
     elif t == "S":
         target(o[1]).importance.all = float(Fraction(o[2]))
+    elif t == "Wr":
+        mp.write_problem(pr, "c09_intermediate.i")
     elif t == "O":
         pr.cells = [pr.cells[n] for n in o[1]]
     elif t == "I":
@@ -396,12 +400,19 @@ def run_real(case, probe_first=True):
     for o in case["ops"]:
         try:
             apply_op(pr, env, o)
-            log.append(None)
+            if o[0] != "Wr":
+                log.append(None)
         except Exception as e:
-            log.append(exc_class(e))
+            if o[0] == "Wr":
+                # a refusal / crash of an intermediate write: recorded, the history goes on
+                log_w = exc_class(e)
+                env.setdefault("intermediate_write_errors", []).append(log_w)
+            else:
+                log.append(exc_class(e))
     mode = real_mode(pr)
     res = {"oplog": log, "mode": mode,
-           "flags": {k: bool(pr.print_in_data_block[k]) for k in CLASSES}}
+           "flags": {k: bool(pr.print_in_data_block[k]) for k in CLASSES},
+           "intermediate_write_errors": env.get("intermediate_write_errors", [])}
 
     def take_api(key):
         try:
@@ -519,7 +530,21 @@ def compare(case, real, ans, table):
             dis.append(("write", real.get("write_error"), m.get("write_error") or "writes"))
         return dis
     cards, items, ev, problems = written_struct(real["out"], table, len(real["api"] or m["api"]))
-    if cards != m["cards"]:
+
+    def per_particle(cs):
+        """which particles share one IMP entry is not compared (Importance._format_tree edits the classifiers in
+        place for good, so it depends on earlier writes, which the model does not keep): one entry per particle"""
+        out = []
+        for n_, ent in cs:
+            e2 = []
+            for e in ent:
+                if e[0] == "imp":
+                    e2 += [("imp", (q,), e[2]) for q in e[1]]
+                else:
+                    e2.append(e)
+            out.append((n_, tuple(sorted(e2, key=repr))))
+        return out
+    if per_particle(cards) != per_particle(m["cards"]):
         dis.append(("cell cards", cards, m["cards"]))
     # the text of a vector is not modelled: a card with a token the independent reader cannot read as a number or
     # a shortcut (oracle: 'vector-entry') is compared by class only
@@ -538,7 +563,7 @@ def compare(case, real, ans, table):
 
 # --------------------------------------------------------------------------- generator of problems
 IMP_CHOICES = ["1", "1", "1", "0", "2", "0.5", "4", "1.0"]
-VOL_CHOICES = ["3.5", "1", "2.5", "0.125", "10", "7.25", "1.5e+01", "100"]
+VOL_CHOICES = ["3.5", "1", "2.5", "0.125", "10", "7.25", "1.5e+01", "100", "0", "0"]   # 0 is a volume too
 
 
 def compress_vec(rng, toks, jump_ok=True):
@@ -769,6 +794,8 @@ def gen_program(rng, meta, length=None):
             ops.append(["G", n, rng.choice(univs + [None])])
         else:                                          # a flip in the middle of the program
             ops.append(["F", rng.choice(CLASSES), rng.choice([0, 1])])
+        if rng.random() < 0.12:
+            ops.append(["Wr"])
     return ops
 
 
@@ -804,6 +831,12 @@ def targeted_programs(rng, meta):
             edit += [["U", n, rng.choice(univs)]]
     out.append(("edit-ends", edit))
     out.append(("set-all", [["S", cells[-1], "4"], ["I", cells[0], parts[0], "3"], ["S", cells[0], "0.5"]]))
+    # write_to_file in the middle of a history: what a write leaves behind must not show in the next one
+    out.append(("write-then-flip", [["Wr"]]))
+    if len(cells) > 1:
+        out.append(("write-reverse", [["Wr"], ["O", list(reversed(cells))]]))
+        out.append(("write-move-first-to-end", [["Wr"], ["O", cells[1:] + cells[:1]], ["Wr"]]))
+    out.append(("append-write-edit", app + [["A"], ["Wr"]] + edit))
     # a new cell has a neutron tree only: importance.all has to give it one for every MODE particle
     out.append(("append-then-set-all", [["N", new], ["A"], ["S", new, "2"]]))
     return out
@@ -1167,7 +1200,8 @@ def run(ctx):
             "statements": {}, "statement_errors": {}, "write": {}, "flags_at_write": {k: {"cell": 0, "data": 0} for k in CLASSES},
             "oracle_failures": {}, "model_diag": {}, "deepcopy_unsupported": 0, "reread_checked": 0,
             "program_length": {}, "flag_assignment_position": {"start": 0, "end": 0}, "targeted": {},
-            "read_oracle_checked": 0, "second_pass_without_probes": 0}
+            "read_oracle_checked": 0, "second_pass_without_probes": 0, "intermediate_writes": 0,
+            "intermediate_write_errors": {}}
 
     def bump(d, k, n=1):
         d[k] = d.get(k, 0) + n
@@ -1225,7 +1259,7 @@ def run(ctx):
         reals, reqs, tabs, kept = [], [], [], []
         for c in cases:
             real = run_real(c)
-            if any(o[0] == "C" and e == "TypeError" for o, e in zip(c["ops"], real.get("oplog", []))):
+            if any(o[0] == "C" and e == "TypeError" for o, e in zip([x for x in c["ops"] if x[0] != "Wr"], real.get("oplog", []))):
                 dist["deepcopy_unsupported"] += 1        # copy.deepcopy of a cell fails for problems with some data inputs
                 continue
             req, tab = request_of(c, mode_order=real.get("mode"))
@@ -1244,7 +1278,10 @@ def run(ctx):
             m = parse_answer(ans)
             c["_diag"] = m.get("diag", "")
             bump(dist["model_diag"], c["_diag"] or "clean")
-            for o, e in zip(c["ops"], real.get("oplog", [])):
+            dist["intermediate_writes"] += sum(1 for x in c["ops"] if x[0] == "Wr")
+            for e in real.get("intermediate_write_errors", []):
+                bump(dist["intermediate_write_errors"], e)
+            for o, e in zip([x for x in c["ops"] if x[0] != "Wr"], real.get("oplog", [])):
                 bump(dist["statements"], o[0])
                 if e:
                     bump(dist["statement_errors"], e)
